@@ -280,6 +280,36 @@ def oracle(seed, tier):
                 break
         if len(samples) < 2:
             samples.append({"world": w, "cmd": lines[1], "answer": out[1][:80]})
+    # a point whose radial foot lies 5e-13 rad beyond the end of a circular piece (inside the 1e-12 rad tolerance of its sector test, so its along-distance exceeds the
+    # piece's length and nothing is recorded), followed by a longer circular piece that does not contain the point: the answer is 'no foot' or the end of the first piece,
+    # never the first piece's numbers recorded for the second one (upstream fix 7e53c3e5)
+    for (l0, t0, b0, l1, t1, b1) in [(100e3, 30, 60, 150e3, 80, 85), (80e3, 20, 50, 250e3, 70, 75), (150e3, 45, 60, 250e3, 75, 80)]:
+        w = {"version": "1.1", "features": [{"model": "subducting plate", "name": "s", "coordinates": [[0, -500e3], [0, 500e3]], "dip point": [1e7, 0], "min depth": 0, "max depth": 660e3,
+                                              "segments": [{"length": l0, "thickness": [100e3], "angle": [t0, b0]}, {"length": l1, "thickness": [100e3], "angle": [t1, b1]}],
+                                              "composition models": [{"model": "uniform", "compositions": [0]}]}]}
+        path = os.path.join(wdir, "stale_%d.wb" % int(l0))
+        json.dump(w, open(path, "w"))
+        th0, be0 = math.radians(t0), math.radians(b0)
+        r0 = l0 / (be0 - th0)
+        lines, hs = ["world w %s -" % path], []
+        for h in (10e3, -20e3, 35e3):
+            for eps_ in (5e-13, 2e-13, 8e-13):
+                psi = be0 + eps_
+                u = -r0 * math.sin(th0) + (r0 + h) * math.sin(psi)
+                v = r0 * math.cos(th0) - (r0 + h) * math.cos(psi)
+                if v <= 0:
+                    continue
+                hs.append((h, u, v))
+                lines.append("dist w s %s %s %s %s" % (fhex(u), fhex(0.0), fhex(1000e3 - v), fhex(v)))
+        rc, out, err = proto.run_harness(lines)
+        if rc != 0 or len(out) != len(lines) or out[0] != "ok":
+            viol.append({"what": "library failed on the arc-end probes: rc=%s %s" % (rc, out[:1]), "world_json": w}); continue
+        for (h, u, v), o in zip(hs, out[1:]):
+            a = parse_answer(o); cases += 1
+            if a[0] == "ok" and math.isfinite(a[1][1]) and a[1][1] > l0 + 1.0 and abs(abs(a[1][0]) - abs(h)) < 1.0:
+                viol.append({"what": "slab: a point %.6g m %s the end of the first circular piece (u=%.12g, v=%.12g) is answered with distance along the plane %.9g: the first piece's numbers recorded for the second "
+                                     "piece (the first piece is %.6g m long)" % (abs(h), "above" if h > 0 else "below", u, v, a[1][1], l0), "world_json": w, "world": path, "segments": w["features"][0]["segments"], "probe": "arc-end-stale"})
+                break
     return {"violations": trim_violations(viol, 20), "summary": {"cases": cases, "violations": len(viol), "nontrivial": nontriv, "input_distribution": dist}, "samples": samples}
 
 
